@@ -1,0 +1,103 @@
+//go:build verif
+
+package reconciler
+
+import (
+	"context"
+	"sync"
+
+	"k8s.io/client-go/util/workqueue"
+	"sigs.k8s.io/controller-runtime/pkg/client"
+	"sigs.k8s.io/controller-runtime/pkg/event"
+	"sigs.k8s.io/controller-runtime/pkg/predicate"
+
+	"github.com/jcmoraisjr/haproxy-ingress/pkg/controller/config"
+	"github.com/jcmoraisjr/haproxy-ingress/pkg/controller/services"
+	"github.com/jcmoraisjr/haproxy-ingress/pkg/converters/types"
+)
+
+// Verification hook (build tag `verif` only): exports constructors and accessors so
+// that an external package can drive the unexported watchers. No logic lives here.
+
+// VerifWatchers wraps the unexported watchers and its handler table.
+type VerifWatchers struct {
+	w  *watchers
+	hs []*hdlr
+}
+
+// VerifHandler wraps one unexported per-kind handler.
+type VerifHandler struct{ h *hdlr }
+
+// VerifQueue records the rparam items the handlers enqueue (only AddRateLimited is used by the handlers).
+type VerifQueue struct {
+	workqueue.TypedRateLimitingInterface[rparam]
+	mu       sync.Mutex
+	fullsync []bool
+}
+
+// AddRateLimited records the fullsync flag of the queued item.
+func (q *VerifQueue) AddRateLimited(item rparam) {
+	q.mu.Lock()
+	q.fullsync = append(q.fullsync, item.fullsync)
+	q.mu.Unlock()
+}
+
+// Items returns a copy of the recorded fullsync flags, in enqueue order.
+func (q *VerifQueue) Items() []bool {
+	q.mu.Lock()
+	defer q.mu.Unlock()
+	return append([]bool(nil), q.fullsync...)
+}
+
+// VerifCreateWatchers calls createWatchers and getHandlers.
+func VerifCreateWatchers(ctx context.Context, cfg *config.Config, val services.IsValidResource) *VerifWatchers {
+	w := createWatchers(ctx, cfg, val)
+	return &VerifWatchers{w: w, hs: w.getHandlers()}
+}
+
+// Handlers returns the handler table in getHandlers order.
+func (v *VerifWatchers) Handlers() []VerifHandler {
+	res := make([]VerifHandler, len(v.hs))
+	for i, h := range v.hs {
+		res[i] = VerifHandler{h: h}
+	}
+	return res
+}
+
+// GetChangedObjects calls getChangedObjects.
+func (v *VerifWatchers) GetChangedObjects() *types.ChangedObjects { return v.w.getChangedObjects() }
+
+// Running calls running.
+func (v *VerifWatchers) Running() bool { return v.w.running() }
+
+// Type returns the watched object type.
+func (h VerifHandler) Type() client.Object { return h.h.typ }
+
+// Resource returns the tracking resource type.
+func (h VerifHandler) Resource() types.ResourceType { return h.h.res }
+
+// Full returns the full-sync flag of the handler.
+func (h VerifHandler) Full() bool { return h.h.full }
+
+// Predicates returns the predicates passed to source.TypedKind.
+func (h VerifHandler) Predicates() []predicate.Predicate { return h.h.pr }
+
+// Create calls hdlr.Create.
+func (h VerifHandler) Create(ctx context.Context, obj client.Object, q *VerifQueue) {
+	h.h.Create(ctx, event.TypedCreateEvent[client.Object]{Object: obj}, q)
+}
+
+// Update calls hdlr.Update.
+func (h VerifHandler) Update(ctx context.Context, old, new client.Object, q *VerifQueue) {
+	h.h.Update(ctx, event.TypedUpdateEvent[client.Object]{ObjectOld: old, ObjectNew: new}, q)
+}
+
+// Delete calls hdlr.Delete.
+func (h VerifHandler) Delete(ctx context.Context, obj client.Object, q *VerifQueue) {
+	h.h.Delete(ctx, event.TypedDeleteEvent[client.Object]{Object: obj}, q)
+}
+
+// Generic calls hdlr.Generic.
+func (h VerifHandler) Generic(ctx context.Context, obj client.Object, q *VerifQueue) {
+	h.h.Generic(ctx, event.TypedGenericEvent[client.Object]{Object: obj}, q)
+}
